@@ -30,6 +30,10 @@
 //   setlt <x> <lt> ; touchupd <o> set|force ; wrowbad <d> <row> row|type|many ; `none` instead of a <ref>: the none_t overload
 //   mk <b> A <name> <type> from <memtype> <n> <dtype|->    the template createDataArray(name, type, data, data_type)
 //   mk ... z                                              (A with a shape, D) the explicit Compression argument ; dim <a> frame <ref> <col>
+//   quiet on                                              from here to the next reopen the interpreter observes NOTHING (no dump, no digest,
+//                                                         no liveness walk; deletes are not allowed): the next reopen is the first look at the file
+//   hobs <o>                                              the entity seen through the handle the driver KEPT (the one that made the calls) against
+//                                                         the fresh handles of the dump: same=<0|1> diff=<first differing field>
 //   reopen def                                            File::open(path) with every argument defaulted
 //   sdata <a> <memtype> <n>                       template DataSet::setData(std::vector<T>(n)): resize to {n}, write  (modelled)
 //   adata <a> <memtype> <axis> <rank> <count..>   DataArray::appendData(memtype, buffer, count, axis)                  (modelled)
@@ -66,6 +70,7 @@ namespace hist {
 static std::string workdir;
 static std::string mode_ = "C03";       // which property's driver this is (C04: delete report)
 static bool read_only = false;
+static bool quiet = false;               // blind build: only the mutating calls are made, nothing is observed (no dump, no digest)
 static std::vector<std::string> last_raw;      // C08: the raw dump (everything but updated_at) taken before a call that writes data / attributes
 static std::vector<std::string> raw_at_open;   // the raw dump right after the last open (C02: a read-only session changes nothing)
 static nix::File file;
@@ -1455,6 +1460,65 @@ static std::string delete_report(const std::string &before, const std::string &a
            " frame=" + b01(scrub_dump(before, now_dead) == after);
 }
 
+// ---- the entity through the kept handle (C02 / C03: a handle carries no state of its own) ----
+static std::vector<std::string> kept_fields(H &h) {
+    std::vector<std::string> f;
+    Walk w;
+    auto meta_src = [&](const std::string &m, const std::string &s) { f.push_back("meta=" + m); f.push_back("src=" + s); };
+    switch (h.kind) {
+    case 'T': {
+        f.push_back("pos=" + SAFE(dbls(h.t.position())));
+        f.push_back("refs=" + SAFE(ords(h.t.references())));
+        f.push_back("X=" + SAFE(ords(h.t.features())));
+        meta_src(SAFE(ordof(h.t.metadata())), SAFE(ords(h.t.sources())));
+        break; }
+    case 'M': {
+        f.push_back("pos=" + ([&]() -> std::string { try { return ordof(h.m.positions()); } catch (...) { return "-"; } })());
+        f.push_back("ext=" + ([&]() -> std::string { try { return ordof(h.m.extents()); } catch (...) { return "-"; } })());
+        f.push_back("refs=" + SAFE(ords(h.m.references())));
+        f.push_back("X=" + SAFE(ords(h.m.features())));
+        meta_src(SAFE(ordof(h.m.metadata())), SAFE(ords(h.m.sources())));
+        break; }
+    case 'G':
+        f.push_back("ga=" + SAFE(ords(h.g.dataArrays()))); f.push_back("gd=" + SAFE(ords(h.g.dataFrames())));
+        f.push_back("gt=" + SAFE(ords(h.g.tags()))); f.push_back("gm=" + SAFE(ords(h.g.multiTags())));
+        meta_src(SAFE(ordof(h.g.metadata())), SAFE(ords(h.g.sources())));
+        break;
+    case 'A':
+        f.push_back("ext=" + SAFE(ndsz(h.a.dataExtent()))); f.push_back("dims=" + SAFE(w.dims_of(h.a)));
+        meta_src(SAFE(ordof(h.a.metadata())), SAFE(ords(h.a.sources())));
+        break;
+    case 'D': meta_src(SAFE(ordof(h.d.metadata())), SAFE(ords(h.d.sources()))); break;
+    case 'S':
+        f.push_back("link=" + SAFE(ordof(h.s.link()))); f.push_back("S=" + SAFE(ords(h.s.sections()))); f.push_back("P=" + SAFE(ords(h.s.properties())));
+        break;
+    case 'R': f.push_back("meta=" + SAFE(ordof(h.r.metadata()))); f.push_back("R=" + SAFE(ords(h.r.sources()))); break;
+    case 'B':
+        f.push_back("meta=" + SAFE(ordof(h.b.metadata()))); f.push_back("A=" + SAFE(ords(h.b.dataArrays()))); f.push_back("D=" + SAFE(ords(h.b.dataFrames())));
+        f.push_back("T=" + SAFE(ords(h.b.tags()))); f.push_back("M=" + SAFE(ords(h.b.multiTags()))); f.push_back("G=" + SAFE(ords(h.b.groups())));
+        f.push_back("R=" + SAFE(ords(h.b.sources())));
+        break;
+    case 'P': f.push_back("cnt=[" + SAFE(enc_u64(h.p.valueCount())) + "]"); break;
+    case 'X': f.push_back("data=" + SAFE(ordof(h.x.data()))); f.push_back("lt=" + SAFE(enc_str(enc_lt(h.x.linkType())))); break;
+    }
+    return f;
+}
+static std::string hobs(int k) {
+    H &h = recv(k, "BSRADTMGPX");
+    std::vector<std::string> kept = kept_fields(h);
+    std::string now = dump();
+    std::string want = std::string(1, h.kind) + std::to_string(k);
+    for (auto &ln : split_bar(now)) {
+        std::vector<std::string> fs = split_fields(ln);
+        if (fs.empty() || fs[0] != want) continue;
+        for (auto &kf : kept) {
+            if (std::find(fs.begin() + 1, fs.end(), kf) == fs.end()) return "same=0 diff=" + kf.substr(0, kf.find('='));
+        }
+        return "same=1 diff=-";
+    }
+    return "same=0 diff=absent";
+}
+
 static void reset() {
     hs.clear(); ord_of_id.clear();
     if (file) file.close();
@@ -1462,6 +1526,7 @@ static void reset() {
     path = workdir + "/hist" + std::to_string(file_serial % 2) + ".nix";
     file = nix::File::open(path, nix::FileMode::Overwrite);
     read_only = false;
+    quiet = false;
     raw_at_open.clear();
     last_dump = dump();
     last_raw.clear();
@@ -1479,9 +1544,14 @@ static std::string answer(const std::vector<std::string> &t) {
     if (c == "new") { reset(); return "OK -" + tail_of(last_dump, last_dump); }
     if (c == "uuid") return std::string("OK ") + b01(nix::util::looksLikeUUID(dec_str(t.at(1))));
     if (c == "observe") return "OK " + dump();
+    if (c == "quiet") { quiet = t.at(1) == "on"; return "OK -"; }
+    if (c == "hobs") { try { return "OK " + hobs((int)dec_int(t.at(1))); } catch (const std::domain_error &e) { return std::string("ERR ") + e.what(); } }
     if (c == "reopen") {
         std::string kind = t.size() > 1 ? t[1] : "rw";
-        std::vector<std::string> raw_before = rawdump(file);
+        bool blind = quiet;                 // nothing of this file was observed yet: the reopen is the first look
+        quiet = false;
+        std::vector<std::string> raw_before;
+        if (!blind) raw_before = rawdump(file);
         bool same = true;
         std::string diff = "-";
         // a read-only session, refused modifications included, shows from its first to its last call what it showed when it was opened
@@ -1492,6 +1562,7 @@ static std::string answer(const std::vector<std::string> &t) {
         if (kind == "other" || kind == "otherw") {
             std::vector<std::string> child;
             if (!other_process_dump(kind == "other" ? "ro" : "rw", child)) { if (same) { same = false; diff = "child-failed"; } }
+            else if (blind) raw_before = child;        // the fresh process saw the file first: this process has to see the same
             else if (child != raw_before && same) { same = false; diff = "other:" + raw_diff(raw_before, child); }
         }
         read_only = kind == "ro";
@@ -1506,7 +1577,7 @@ static std::string answer(const std::vector<std::string> &t) {
         }
         std::vector<std::string> raw_after = rawdump(file);
         raw_at_open = raw_after;
-        if (raw_after != raw_before && same) { same = false; diff = raw_diff(raw_before, raw_after); }
+        if (!raw_before.empty() && raw_after != raw_before && same) { same = false; diff = raw_diff(raw_before, raw_after); }
         std::string before = last_dump;
         refresh_liveness(true);
         for (auto &h : hs) if (h.bound && !h.alive) h.bound = false;      // dead handles become none handles
@@ -1539,6 +1610,10 @@ static std::string answer(const std::vector<std::string> &t) {
         head = "ERR " + cls;
     } catch (...) {
         head = "ERR " + classify();
+    }
+    if (quiet) {
+        if (maybe_deleted) throw std::logic_error("no deletes in a quiet session");
+        return head + " q";
     }
     std::string before = last_dump;
     if (maybe_deleted) {
